@@ -972,7 +972,7 @@ impl<'a> ActiveFileSet<'a> {
                 continue;
             };
 
-            if file_name.starts_with(&file_prefix) && file_name.ends_with(&file_ext) {
+            if is_file_set_member(file_name, file_prefix, file_ext) {
                 file_set.push(file_name.to_owned());
             }
         }
@@ -1189,6 +1189,35 @@ fn file_ts(roll_by: RollBy, parts: emit::timestamp::Parts) -> String {
 
 fn file_id(rolling_millis: u32, rolling_id: u32) -> String {
     format!("{:<08}.{:<08x}", rolling_millis, rolling_id)
+}
+
+fn is_file_set_member(file_name: &str, file_prefix: &str, file_ext: &str) -> bool {
+    // Only files named `{prefix}.{date}.{counter}.{id}.{ext}` belong to the set
+    // Other files sharing the prefix and extension, like `{prefix}2.*.{ext}`
+    // or `{prefix}.other.*.{ext}`, belong to someone else and must be left alone
+    let Some(parts) = file_name
+        .strip_prefix(file_prefix)
+        .and_then(|rest| rest.strip_prefix('.'))
+        .and_then(|rest| rest.strip_suffix(file_ext))
+        .and_then(|rest| rest.strip_suffix('.'))
+    else {
+        return false;
+    };
+
+    let mut parts = parts.split('.');
+
+    let (Some(ts), Some(counter), Some(id), None) =
+        (parts.next(), parts.next(), parts.next(), parts.next())
+    else {
+        return false;
+    };
+
+    !ts.is_empty()
+        && ts.bytes().all(|b| b.is_ascii_digit() || b == b'-')
+        && !counter.is_empty()
+        && counter.bytes().all(|b| b.is_ascii_digit())
+        && !id.is_empty()
+        && id.bytes().all(|b| b.is_ascii_hexdigit())
 }
 
 fn read_file_name_ts(file_name: &str) -> Result<&str, io::Error> {
